@@ -1765,6 +1765,42 @@ Proof.
     exists mid. split; [apply ns_cons; assumption | auto].
 Qed.
 
+(* the range a frame of the sender occupies in the uncompressed datagram *)
+Definition fr_span (hdiff : Z) (fr : lpf_frame) : Z * Z :=
+  match fr_hdr fr with
+  | Some (SfFirst _ _) => (0, blen (fr_payload fr) + hdiff)
+  | Some (SfNext _ _ off) => (off * 8, blen (fr_payload fr))
+  | None => (0, 0)
+  end.
+Definition in_fr_span (hdiff x : Z) (fr : lpf_frame) : Prop :=
+  fst (fr_span hdiff fr) <= x < fst (fr_span hdiff fr) + snd (fr_span hdiff fr).
+
+(* the FRAGN frames of a segment tile [lo + hdiff, lo' + hdiff): every octet in exactly one frame *)
+Lemma nexts_seg_tiles c size tag hdiff : forall lo fs lo', nexts_seg c size tag hdiff lo fs lo' -> 0 <= lo ->
+  (forall fr, In fr fs -> lo + hdiff <= fst (fr_span hdiff fr) /\ 0 < snd (fr_span hdiff fr) /\
+                          fst (fr_span hdiff fr) + snd (fr_span hdiff fr) <= lo' + hdiff) /\
+  (forall x, lo + hdiff <= x < lo' + hdiff -> exists fr, In fr fs /\ in_fr_span hdiff x fr) /\
+  (forall fr1 fr2 x, In fr1 fs -> In fr2 fs -> in_fr_span hdiff x fr1 -> in_fr_span hdiff x fr2 -> fr1 = fr2).
+Proof.
+  intros lo fs lo' H. induction H as [lo|lo n fs lo' Hn Hle Hm Ho Hseg IH]; intros Hlo.
+  - split; [intros fr []|]. split; [intros x Hx; lia | intros fr1 fr2 x []].
+  - destruct (IH ltac:(lia)) as (I1 & I2 & I3). pose proof (nexts_seg_le _ _ _ _ _ _ _ Hseg) as Hle'.
+    set (fr0 := mkFrame (Some (SfNext size tag ((lo + hdiff) / 8))) (firstn (Z.to_nat n) (skipn (Z.to_nat lo) c))).
+    assert (Hbl : blen (firstn (Z.to_nat n) (skipn (Z.to_nat lo) c)) = n).
+    { rewrite blen_firstn; [reflexivity|]. rewrite blen_skipn by lia. lia. }
+    assert (Hs0 : fr_span hdiff fr0 = (lo + hdiff, n)).
+    { unfold fr_span, fr0. cbn [fr_hdr fr_payload]. rewrite Hbl. f_equal. lia. }
+    split; [|split].
+    + intros fr [<-|Hin]; [rewrite Hs0; cbn [fst snd]; lia|]. destruct (I1 fr Hin) as (A & B & C). lia.
+    + intros x Hx. destruct (Z.lt_ge_cases x (lo + n + hdiff)).
+      * exists fr0. split; [left; reflexivity|]. unfold in_fr_span. rewrite Hs0. cbn [fst snd]. lia.
+      * destruct (I2 x ltac:(lia)) as (fr & Hin & Hsp). exists fr. split; [right; exact Hin | exact Hsp].
+    + intros fr1 fr2 x [<-|H1] [<-|H2] S1 S2; try reflexivity.
+      * exfalso. unfold in_fr_span in S1, S2. rewrite Hs0 in S1. cbn [fst snd] in S1. destruct (I1 fr2 H2) as (A & _). lia.
+      * exfalso. unfold in_fr_span in S1, S2. rewrite Hs0 in S2. cbn [fst snd] in S2. destruct (I1 fr1 H1) as (A & _). lia.
+      * exact (I3 fr1 fr2 x H1 H2 S1 S2).
+Qed.
+
 Lemma Forall2_cons_inv' {A B} (R : A -> B -> Prop) a l b l' : Forall2 R (a :: l) (b :: l') -> R a b /\ Forall2 R l l'.
 Proof. intros H. inversion H; subst. auto. Qed.
 Lemma Forall2_nil_inv' {A B} (R : A -> B -> Prop) l' : Forall2 R [] l' -> l' = [].
@@ -2061,6 +2097,115 @@ Section EndToEnd.
       split.
       + clear - HF1. revert rs_pre HF1. induction pre as [|x pre IH]; intros rs HF; inversion HF; subst; constructor; auto.
       + clear - HF2. revert rs_post HF2. induction post as [|x post IH]; intros rs HF; inversion HF; subst; constructor; auto.
+  Qed.
+
+  (* an arrival that is one of the sender's frames, from the sender's addresses *)
+  Definition e2e_sender (a : lpl_arrival) : Prop := ar_lls a = lls /\ ar_lld a = lld /\ In (ar_payload a) octs.
+
+  (* the frames of the sender as events: key k, span, first flag -- and they tile the datagram *)
+  Lemma e2e_frames_tile : exists hdiff frames,
+    octs = map frame_bytes frames /\
+    (forall fr t, In fr frames ->
+       ev_kspan D k (lpl_ev_of ctx (mkArrival t lls lld (frame_bytes fr))) = Some (fr_span hdiff fr) /\
+       ev_kfirstb k (lpl_ev_of ctx (mkArrival t lls lld (frame_bytes fr))) =
+         match fr_hdr fr with Some (SfFirst _ _) => true | _ => false end) /\
+    (exists F1, In F1 frames /\ exists s t, fr_hdr F1 = Some (SfFirst s t)) /\
+    (forall fr, In fr frames -> 0 <= fst (fr_span hdiff fr) /\ 0 < snd (fr_span hdiff fr) /\
+                                fst (fr_span hdiff fr) + snd (fr_span hdiff fr) <= blen D) /\
+    (forall x, 0 <= x < blen D -> exists fr, In fr frames /\ in_fr_span hdiff x fr) /\
+    (forall fr1 fr2 x, In fr1 frames -> In fr2 frames -> in_fr_span hdiff x fr1 -> in_fr_span hdiff x fr2 -> fr1 = fr2).
+  Proof.
+    destruct e2e_setup as (chdr0 & uhdr0 & fs0 & Hsz0 & Hh & HlD & HD2k & H40 & Hchdr & Hf1 & Hshift & Hdec & Es0 & Hnx0).
+    destruct e2e_octs as (chdr & uhdr & fs & Hsz & Es & Eocts & Hnx). cbv zeta in Es.
+    rewrite Hsz0 in Hsz. injection Hsz as <- <-. clear Es0 Hnx0 fs0.
+    set (hdiff := uhdr0 - chdr0) in *. set (f1 := lpf_f1 ieee_len hdiff) in *.
+    set (F1 := mkFrame (Some (SfFirst (blen D) tag)) (firstn (Z.to_nat f1) c)) in *.
+    assert (Hhd0 : 0 <= hdiff) by (subst hdiff; lia).
+    pose proof (lpf_nexts_seg _ _ _ _ _ _ _ Hnx) as Hseg.
+    destruct (nexts_seg_tiles _ _ _ _ _ _ _ Hseg ltac:(lia)) as (T1 & T2 & T3).
+    assert (Hbl1 : blen (firstn (Z.to_nat f1) c) = f1) by (apply blen_firstn; lia).
+    assert (Hs1 : fr_span hdiff F1 = (0, f1 + hdiff)) by (unfold fr_span, F1; cbn [fr_hdr fr_payload]; rewrite Hbl1; reflexivity).
+    exists hdiff, (F1 :: fs). split; [exact Eocts|]. split; [|split; [|split; [|split]]].
+    - intros fr t Hin.
+      destruct (e2e_frame_event chdr0 uhdr0 _ Hsz0 Es fr Hin) as (Hho & Hev).
+      destruct (Hev t) as (f & Ef & Hkf & Hp & Hhf & Hplf). rewrite Ef.
+      destruct (ev_kspan_frag D k t src dst f Hkf) as (-> & ->).
+      destruct Hin as [<-|Hin].
+      + (* the first fragment: the decompressor's output length *)
+        assert (Hg : sixfrag_wf (SfFirst (blen D) tag) = true) by exact Hho.
+        pose proof (lpl_ev_of_fragment_octets ctx t lls lld (SfFirst (blen D) tag) (fr_payload F1) Hg) as Ex.
+        change (sixfrag_bytes (SfFirst (blen D) tag) ++ fr_payload F1) with (frame_bytes F1) in Ex.
+        rewrite Ef in Ex. injection Ex as ->. unfold frag_span, frag_is_first. cbn [rf_hdr rf_first_dec fr_payload fr_hdr F1 lpf_hdr_size].
+        rewrite (Hdec (blen D) ltac:(lia)). rewrite Hs1. split; [|reflexivity]. f_equal. f_equal. apply blen_firstn. lia.
+      + destruct (lpf_nexts_offsets _ _ _ _ _ _ _ Hnx fr Hin) as (p & n & Hh' & _).
+        rewrite Hh' in Hhf. injection Hhf as Hhf. unfold frag_span, frag_is_first, fr_span. rewrite Hhf, Hh', Hplf. auto.
+    - exists F1. split; [left; reflexivity | exists (blen D), tag; reflexivity].
+    - intros fr [<-|Hin]; [rewrite Hs1; cbn [fst snd]; lia|]. destruct (T1 fr Hin) as (A & B & C). lia.
+    - intros x Hx. destruct (Z.lt_ge_cases x (f1 + hdiff)).
+      + exists F1. split; [left; reflexivity|]. unfold in_fr_span. rewrite Hs1. cbn [fst snd]. lia.
+      + destruct (T2 x ltac:(lia)) as (fr & Hin & Hsp). exists fr. split; [right; exact Hin | exact Hsp].
+    - intros fr1 fr2 x [<-|H1] [<-|H2] S1 S2; try reflexivity.
+      + exfalso. unfold in_fr_span in S1, S2. rewrite Hs1 in S1. cbn [fst snd] in S1. destruct (T1 fr2 H2) as (A & _). lia.
+      + exfalso. unfold in_fr_span in S1, S2. rewrite Hs1 in S2. cbn [fst snd] in S2. destruct (T1 fr1 H1) as (A & _). lia.
+      + exact (T3 fr1 fr2 x H1 H2 S1 S2).
+  Qed.
+
+  (* E2E, liveness in terms of the frames themselves: every frame of the sender has arrived (from the
+     sender's addresses) by the time of a, and a's own frame had not arrived before -- a is "the last
+     missing fragment".  Any order the tracker can follow, any duplicates, any other traffic. *)
+  Theorem lpl_e2e_delivers_all_frames pre a post ss :
+    0 <= timeout -> kstate D k ss None -> Forall e2e_arrival_ok (pre ++ a :: post) ->
+    let a0 := hd a pre in
+    e2e_sender a0 -> (exists j, (j < length ss)%nat /\ slot_avail (ar_time a0) (nth j ss lpf_slot_new)) ->
+    Forall (fun x => ar_time x <= ar_time a0 + timeout) (pre ++ [a]) ->
+    gaps_fit lpf_N D k asm_new (map (lpl_ev_of ctx) (pre ++ [a])) ->
+    e2e_sender a ->
+    (forall o, In o octs -> exists x, In x (pre ++ [a]) /\ e2e_sender x /\ ar_payload x = o) ->
+    (forall x, In x pre -> e2e_sender x -> ar_payload x <> ar_payload a) ->
+    exists ss' rs_pre rs_post st',
+      lpl_run ctx timeout (pre ++ a :: post) ss = Ok (ss', rs_pre ++ Some D :: rs_post) /\
+      kstate D k ss' st' /\ length rs_pre = length pre /\
+      Forall2 (fun x r => ev_is k (lpl_ev_of ctx x) -> r = None) pre rs_pre /\
+      Forall2 (fun x r => ev_is k (lpl_ev_of ctx x) -> r = None \/ r = Some D) post rs_post.
+  Proof.
+    intros Hto Hst Harr a0 Hs0 Hav Htime Hgaps Hsa Hall Hnew.
+    destruct e2e_frames_tile as (hdiff & frames & Eo & Hev & (F1 & HF1 & s1 & t1 & HhF1) & Hpos & Hcover & Hdisj).
+    assert (Hmk : forall x, e2e_sender x -> exists fr, In fr frames /\ x = mkArrival (ar_time x) lls lld (frame_bytes fr)).
+    { intros [t xl xd xp] (H1 & H2 & H3). cbn in *. subst. rewrite Eo in H3. apply in_map_iff in H3.
+      destruct H3 as (fr & <- & Hfr). exists fr. auto. }
+    assert (Hkev : forall x, e2e_sender x -> ev_is k (lpl_ev_of ctx x)).
+    { intros x Hx. destruct (e2e_sender_arrival x Hx) as (_ & f & -> & Hk & _). exact Hk. }
+    apply lpl_e2e_delivers; try assumption; try (apply Hkev; assumption).
+    - (* complete *)
+      split.
+      + destruct (Hall (frame_bytes F1) ltac:(rewrite Eo; apply in_map; exact HF1)) as (x & Hx & Hsx & Hpx).
+        destruct (Hmk x Hsx) as (fr & Hfr & Ex).
+        assert (fr = F1 \/ frame_bytes fr = frame_bytes F1) by (right; rewrite Ex in Hpx; exact Hpx).
+        unfold kfirst. apply existsb_exists. exists (lpl_ev_of ctx x). split; [apply in_map; exact Hx|].
+        assert (Ex' : x = mkArrival (ar_time x) lls lld (frame_bytes F1)) by (rewrite Ex; cbn [ar_time]; rewrite Ex in Hpx; cbn [ar_payload] in Hpx; rewrite Hpx; reflexivity).
+        rewrite Ex'. rewrite (proj2 (Hev F1 _ HF1)), HhF1. reflexivity.
+      + intros y Hy. destruct (Hcover y Hy) as (fr & Hfr & Hsp).
+        destruct (Hall (frame_bytes fr) ltac:(rewrite Eo; apply in_map; exact Hfr)) as (x & Hx & Hsx & Hpx).
+        destruct Hsx as (Hl1 & Hl2 & _).
+        assert (Ex : x = mkArrival (ar_time x) lls lld (frame_bytes fr)) by (destruct x; cbn in *; subst; reflexivity).
+        unfold kcov. apply Exists_exists. exists (lpl_ev_of ctx x). split; [apply in_map; exact Hx|].
+        exists (fst (fr_span hdiff fr)), (snd (fr_span hdiff fr)). split; [|exact Hsp].
+        rewrite Ex, (proj1 (Hev fr _ Hfr)). destruct (fr_span hdiff fr); reflexivity.
+    - (* not complete before: the first octet of a's frame is missing *)
+      destruct (Hmk a Hsa) as (fra & Hfra & Ea).
+      intros (_ & Hcov). destruct (Hpos fra Hfra) as (Hp0 & Hp1 & Hp2).
+      specialize (Hcov (fst (fr_span hdiff fra)) ltac:(lia)). unfold kcov in Hcov.
+      apply Exists_exists in Hcov. destruct Hcov as (e & He & o & sz & Esp & Hin).
+      apply in_map_iff in He. destruct He as (y & <- & Hy).
+      pose proof (ev_kspan_is D k _ o sz Esp) as Hky.
+      assert (Hoky : e2e_arrival_ok y).
+      { rewrite Forall_forall in Harr. apply Harr. apply in_or_app. left. exact Hy. }
+      destruct Hoky as [Hsy|(_ & Hnk)]; [|contradiction].
+      destruct (Hmk y Hsy) as (fry & Hfry & Ey).
+      rewrite Ey, (proj1 (Hev fry _ Hfry)) in Esp. injection Esp as Eo1.
+      assert (fry = fra).
+      { apply (Hdisj fry fra (fst (fr_span hdiff fra)) Hfry Hfra); unfold in_fr_span; [rewrite Eo1; exact Hin | lia]. }
+      subst fry. apply (Hnew y Hy Hsy). rewrite Ey, Ea. reflexivity.
   Qed.
 
   (* E2E, the arrival order of the wire: every frame the sender emitted, in order, each polled no
